@@ -112,6 +112,9 @@ func c03Cfg(i int, rng *rand.Rand) *e2eCfg {
 	if rng.Intn(4) == 0 {
 		c.RespAd = c03Adaptors[rng.Intn(len(c03Adaptors))]
 	}
+	if i%3 == 2 {
+		c.CacheSize = []int{1, 4, 64}[rng.Intn(3)] // route cache on: repeated paths are served from it
+	}
 	if i%7 == 3 || rng.Intn(8) == 0 {
 		c.ServerClientMax = -1 // request bodies are streamed
 	}
